@@ -200,6 +200,34 @@ func runC17(c *Ctx) error {
 		add("enum.bi xmp_xmpns_IdentifyNamespace "+hexs([]byte(s)), "xmpns.IdentifyNamespace", func() string { return fmt.Sprint(int(xmpns.IdentifyNamespace([]byte(s)))) })
 		add("enum.bi xmp_xmpns_IdentifyName "+hexs([]byte(s)), "xmpns.IdentifyName", func() string { return fmt.Sprint(int(xmpns.IdentifyName([]byte(s)))) })
 	}
+	// parsing a documented name returns the value it names (property statement, checked directly on the implementation)
+	for v := 0; v < 256; v++ {
+		it := imagetype.ImageType(v)
+		if v < 24 {
+			c.Stat("spec.fromstring")
+			if got := imagetype.FromString(it.String()); got != it {
+				c.Violate(Case{Entry: "imagetype.FromString", Input: it.String(), Expected: fmt.Sprint(v), Actual: fmt.Sprint(int(got)), Kind: "wrong-value", Class: "name-roundtrip"})
+			}
+			if ext := it.Extension(); ext != "" {
+				if got := imagetype.FromString("." + strings.ToLower(ext)); got.Extension() != ext {
+					c.Violate(Case{Entry: "imagetype.FromString", Input: "." + ext, Expected: ext, Actual: got.Extension(), Kind: "wrong-value", Class: "name-roundtrip"})
+				}
+			}
+		}
+		ns := xmpns.Namespace(v)
+		if name := ns.String(); name != "" && name != "Unknown" {
+			c.Stat("spec.identifynamespace")
+			if got := xmpns.IdentifyNamespace([]byte(name)); got != ns {
+				c.Violate(Case{Entry: "xmpns.IdentifyNamespace", Input: name, Expected: fmt.Sprint(v), Actual: fmt.Sprint(int(got)), Kind: "wrong-value", Class: "name-roundtrip"})
+			}
+		}
+		nm := xmpns.Name(v)
+		if name := nm.String(); name != "" && name != "Unknown" {
+			if got := xmpns.IdentifyName([]byte(name)); got != nm {
+				c.Violate(Case{Entry: "xmpns.IdentifyName", Input: name, Expected: fmt.Sprint(v), Actual: fmt.Sprint(int(got)), Kind: "wrong-value", Class: "name-roundtrip"})
+			}
+		}
+	}
 	model, err := drv.Batch(reqs)
 	if err != nil {
 		return err
